@@ -25,7 +25,9 @@ type lsmTracer struct {
 	mu sync.Mutex
 	q  []traceEv
 
-	sent     map[int64]string // table number → identity already sent as a fact
+	sent     map[int64]string  // table number → identity already sent as a fact
+	seen     map[string]bool   // table identities captured at an event
+	files    map[string][]byte // their bytes, until sent
 	snapSeqs func() []uint64
 	nInstall int
 	nCompact int
@@ -40,7 +42,7 @@ type traceEv struct {
 }
 
 func attachTracer(c *Ctx, r *Runner) *lsmTracer {
-	t := &lsmTracer{c: c, r: r, sent: map[int64]string{}}
+	t := &lsmTracer{c: c, r: r, sent: map[int64]string{}, seen: map[string]bool{}, files: map[string][]byte{}}
 	r.InstallSink()
 	r.OnEvent = func(ev Event) {
 		switch ev.Point {
@@ -58,6 +60,7 @@ func attachTracer(c *Ctx, r *Runner) *lsmTracer {
 				}
 			}
 			t.mu.Lock()
+			t.capture(ev.Args)
 			t.q = append(t.q, traceEv{point: ev.Point, args: ev.Args})
 			t.mu.Unlock()
 		case "c.flush":
@@ -66,6 +69,7 @@ func attachTracer(c *Ctx, r *Runner) *lsmTracer {
 				te.mem = leveldb.VerifMemEntries(m)
 			}
 			t.mu.Lock()
+			t.capture(ev.Args)
 			t.q = append(t.q, te)
 			t.mu.Unlock()
 		}
@@ -77,17 +81,69 @@ func attachTracer(c *Ctx, r *Runner) *lsmTracer {
 func (t *lsmTracer) reset() {
 	t.drain()
 	t.sent = map[int64]string{}
+	t.mu.Lock()
+	t.seen, t.files = map[string]bool{}, map[string][]byte{}
+	t.mu.Unlock()
 	t.c.Lean("lsm reset "+t.r.P.Opts.Cmp, "ok")
 }
 
-// readTable decodes a table file from the recording storage (present or already removed).
-func (t *lsmTracer) readTable(num int64) ([]leveldb.VerifEntry, bool) {
-	b, ok := t.r.St.FileBytes(storage.FileDesc{Type: storage.TypeTable, Num: num})
+func tableID(tb leveldb.VerifTable) string {
+	return fmt.Sprintf("%d/%d/%x/%x", tb.Num, tb.Size, tb.Imin, tb.Imax)
+}
+
+// capture copies, at the time of the event (in the goroutine of the DB, t.mu held), the bytes of every table the
+// event names and that was not seen before: a removed table's file number may be handed out again
+// (tOps.remove -> reuseFileNum) before the client goroutine drains the queue.
+func (t *lsmTracer) capture(args []interface{}) {
+	one := func(tb leveldb.VerifTable) {
+		id := tableID(tb)
+		if t.seen[id] {
+			return
+		}
+		if b, ok := t.r.St.FileBytes(storage.FileDesc{Type: storage.TypeTable, Num: tb.Num}); ok && int64(len(b)) == tb.Size {
+			t.seen[id] = true
+			t.files[id] = b
+		}
+	}
+	for _, a := range args {
+		switch x := a.(type) {
+		case *leveldb.VerifVersion:
+			if x != nil {
+				for _, l := range x.Levels {
+					for _, tb := range l {
+						one(tb)
+					}
+				}
+			}
+		case *leveldb.VerifRecord:
+			if x != nil {
+				for _, tb := range x.Added {
+					one(tb)
+				}
+			}
+		case []leveldb.VerifTable:
+			for _, tb := range x {
+				one(tb)
+			}
+		}
+	}
+}
+
+// readTable decodes the bytes of a table captured at its event.
+func (t *lsmTracer) readTable(tb leveldb.VerifTable) ([]leveldb.VerifEntry, bool) {
+	id := tableID(tb)
+	t.mu.Lock()
+	b, ok := t.files[id]
+	delete(t.files, id)
+	t.mu.Unlock()
 	if !ok {
-		return nil, false
+		// not captured (named only by a dump): the live file, if it is that table
+		if b, ok = t.r.St.FileBytes(storage.FileDesc{Type: storage.TypeTable, Num: tb.Num}); !ok || int64(len(b)) != tb.Size {
+			return nil, false
+		}
 	}
 	o := &opt.Options{Comparer: leveldb.VerifIComparer(t.r.Cmp), Strict: opt.StrictAll}
-	rd, err := table.NewReader(bytes.NewReader(b), int64(len(b)), storage.FileDesc{Type: storage.TypeTable, Num: num}, nil, nil, o)
+	rd, err := table.NewReader(bytes.NewReader(b), int64(len(b)), storage.FileDesc{Type: storage.TypeTable, Num: tb.Num}, nil, nil, o)
 	if err != nil {
 		return nil, false
 	}
@@ -114,13 +170,13 @@ func entriesStr(es []leveldb.VerifEntry) string {
 }
 
 func (t *lsmTracer) fact(tb leveldb.VerifTable) {
-	id := fmt.Sprintf("%d/%x/%x", tb.Size, tb.Imin, tb.Imax)
+	id := tableID(tb)
 	if t.sent[tb.Num] == id {
 		return
 	}
-	es, ok := t.readTable(tb.Num)
+	es, ok := t.readTable(tb)
 	if !ok {
-		t.c.Res.Note("table %d could not be read back from storage", tb.Num)
+		t.c.Res.Note("table %d could not be read back from storage at its event", tb.Num)
 		t.bad = true
 		return
 	}
